@@ -385,12 +385,12 @@ theorem count_body_eq (m : Nat) : ∀ log : List Ev, log.count (Ev.body m) = (bo
 
 /-- a run without error is a completed `runWith` -/
 theorem run_ok {O : Oracle} {files : Files} {libs : Libs} {callFuel : Nat} {mainPath : Path} {mainSrc : ModuleSrc}
-    (hmain : assoc mainPath files = some mainSrc) (hok : (run O files libs callFuel mainPath).err = none) :
-    runWith O files libs (loadFuelFor files) callFuel mainSrc = .ok (run O files libs callFuel mainPath).vm := by
+    (hmain : assoc mainPath files = some mainSrc) (hok : (run .repaired O files libs callFuel mainPath).err = none) :
+    runWith .repaired O files libs (loadFuelFor files) callFuel mainSrc = .ok (run .repaired O files libs callFuel mainPath).vm := by
   unfold run at hok ⊢
   rw [hmain] at hok ⊢
   dsimp only at hok ⊢
-  cases hr : runWith O files libs (loadFuelFor files) callFuel mainSrc with
+  cases hr : runWith .repaired O files libs (loadFuelFor files) callFuel mainSrc with
   | ok vm => rfl
   | err e vm => rw [hr] at hok; simp [finish] at hok
 
